@@ -3,7 +3,7 @@
    correspondence (matrix, right-hand side and post-processing captured at the linear-solver interface).
    The theorems below are the algebra: the row equations of the scaled formulations are equivalent to
    F'_A(z) s = F(z), for EVERY linear H0, J, J^T, active set, lambda > 0, rho > 0 and residual. *)
-From Verif Require Import StepSolvers StepAlgebra StepProofs VecLemmas StepBridge StepBridge2.
+From Verif Require Import StepSolvers LineSearch StepAlgebra StepProofs VecLemmas StepBridge StepBridge2 SearchProofs.
 From Coq Require Import Lqa.
 
 Section C14.
@@ -178,8 +178,37 @@ Proof.
   repeat constructor; lra.
 Qed.
 
+(* the Globalized variant (LineSearch.v): it hands the step solver exactly the system of the Full variant, for every
+   step solver; and when the residual is already below newton_tol, or the full step passes the acceptance test at
+   once, the point it hands on is the Full variant's point (component-wise) *)
+Theorem C14_globalized_system_is_full : forall (P : problem) xh yh dt rho kind tau tol x y sol,
+  let '(M, r, _) := globalized_step P xh yh dt rho kind tau tol x y sol in
+  let '(M', r', _) := newton_step P xh yh dt rho kind Full tau x y sol in
+  M = M' /\ r = r'.
+Proof. exact globalized_system_is_full. Qed.
+Theorem C14_globalized_full_step_when_accepted : forall (P : problem) xh yh dt rho kind tau tol x y sol,
+  Forall2 (fun l u => bnd_le l u = true) (var_lb P) (var_ub P) ->
+  let '(_, _, (dx0, dy0, xn0, yn0)) := newton_step P xh yh dt rho kind Full tau x y sol in
+  qle (merit P xh yh dt rho kind x y) tol = true
+  \/ accepts P xh yh dt rho kind tol (merit P xh yh dt rho kind x y) (search_ip P xh yh dt rho kind x y dx0 dy0)
+             x y dx0 dy0 1 = true ->
+  match snd (globalized_step P xh yh dt rho kind tau tol x y sol) with
+  | Some (_, _, xn, yn) => veq xn xn0 /\ veq yn yn0
+  | None => False
+  end.
+Proof. exact globalized_full_step_when_accepted. Qed.
+(* non-vacuity: f = x^2/2 on [-1, 3], x = 1, dt = rho = 1: the exact Newton direction 1/2 is accepted at once *)
+Example C14_globalized_nonvacuous :
+  let P := quad_problem (mk_qspec [[1]] [0] 0 [] [] [] [Some (-(1))] [Some 3] [] []) in
+  accepts P [1] [] 1 1 KStandard c_1e8 (merit P [1] [] 1 1 KStandard [1] []) (search_ip P [1] [] 1 1 KStandard [1] [] [1 # 2] [])
+          [1] [] [1 # 2] [] 1 = true
+  /\ qle (merit P [1] [] 1 1 KStandard [1] []) c_1e8 = false.
+Proof. vm_compute. split; reflexivity. Qed.
+
 Print Assumptions C14_asymmetric_solves_standard_lists.
 Print Assumptions C14_scaled_residual_x.
 Print Assumptions C14_scaled_residual_y.
 Print Assumptions C14_every_kind_solves_standard_lists.
 Print Assumptions C14_all_kinds_same_step.
+Print Assumptions C14_globalized_system_is_full.
+Print Assumptions C14_globalized_full_step_when_accepted.
